@@ -165,17 +165,18 @@ func TestVerifC12(t *testing.T) {
 	r.Assume("keys are fixed-seed pseudo-random strings of 8..20 bytes; the property's 'random keys' are not re-drawn per run")
 
 	idxMax := vlib.Pick(r, 4096, 65536)
-	fullMax := vlib.Pick(r, 33, 2000) // every size 1..fullMax: validity + every key's proof
+	fullMax := vlib.Pick(r, 33, 2000) // sizes up to fullMax: validity + every key's proof
+	denseMax := vlib.Pick(r, 33, 520) // every size up to here; every 8th + boundary sizes above
 	tmutMax := vlib.Pick(r, 16, 33)   // exhaustive tree mutations
 	pmutMax := vlib.Pick(r, 16, 33)   // exhaustive proof mutations
 	rootMax := vlib.Pick(r, 33, 64)   // root-change for every node x every key mutation
 	boundary := []int{63, 64, 65, 127, 128, 129, 130, 255, 256, 257, 511, 512, 513, 1023, 1024, 1025, 1999, 2000}
 	r.Set("index_helper_bound", idxMax)
-	r.Set("sizes_full", fmt.Sprintf("1..%d", fullMax))
+	r.Set("sizes_full", fmt.Sprintf("every size 1..%d; %d..%d: every 8th size and the boundary sizes", denseMax, denseMax+1, fullMax))
 	r.Set("sizes_boundary", boundary)
 	r.Set("tree_mutation_sizes", fmt.Sprintf("1..%d", tmutMax))
 	r.Set("proof_mutation_sizes", fmt.Sprintf("1..%d (every key); boundary sizes: selected keys", pmutMax))
-	r.Set("root_change_sizes", fmt.Sprintf("1..%d: every node x every key mutation; up to 130 and the boundary sizes: bit flip of every node's key; other sizes: nodes 0,1,2,n/2,n-2,n-1", rootMax))
+	r.Set("root_change_sizes", fmt.Sprintf("1..%d: every node x every key mutation; up to 130 and the boundary sizes: bit flip of every node's key; other sizes: nodes 0,1,n/2,n-1", rootMax))
 
 	isBoundary := map[int]bool{}
 	for _, n := range boundary {
@@ -206,7 +207,8 @@ func TestVerifC12(t *testing.T) {
 		}
 	}
 	for n := fullMax; n >= 1; n-- {
-		if !sizes[n] {
+		// every size up to denseMax; above it every 8th size and the boundary sizes (the quantifier samples large trees)
+		if !sizes[n] && (n <= denseMax || n%8 == 0 || isBoundary[n]) {
 			items = append(items, c12item{kind: "tree", n: n})
 		}
 	}
@@ -418,7 +420,7 @@ func (c *c12run) treeOK(t *testing.T, n int, fullRootChange, everyNodeFlip bool)
 			for b := range kb {
 				flips = append(flips, b)
 			}
-		} else if !everyNodeFlip && i > 2 && i < n-2 && i != n/2 {
+		} else if !everyNodeFlip && i > 1 && i < n-1 && i != n/2 {
 			// sizes that are neither <= 130 nor a boundary size: both ends and the middle only
 			continue
 		}
@@ -498,6 +500,7 @@ func (c *c12run) treeMutations(t *testing.T, n int) {
 	}
 	orig := append([]Node(nil), tr.Nodes()...)
 
+	sampled := map[string]bool{}
 	check := func(id func() string, nodes []Node, field, mut string, i int) {
 		if !c.want(id) {
 			return
@@ -524,7 +527,8 @@ func (c *c12run) treeMutations(t *testing.T, n int) {
 		default:
 			r.Outcome("tmut-rejected")
 		}
-		if n == 3 && i == 1 && mut == "flip" {
+		if n == 3 && i == 1 && mut == "flip" && !sampled[field] {
+			sampled[field] = true
 			r.Sample(map[string]any{"case": id(), "isvalid": fmt.Sprint(verr)})
 		}
 	}
@@ -651,6 +655,7 @@ func (c *c12run) proofMutations(t *testing.T, n int, ks []int, exhaustive bool) 
 		}
 		orig := p.Nodes()
 		h := c12Log2(k + 1)
+		psampled := map[int]bool{}
 
 		// check one mutated proof. newKey != "" : the key written by the mutation.
 		check := func(id func() string, nodes []Node, pos int, field, mut string, onpath bool, role, newKey string) {
@@ -692,7 +697,8 @@ func (c *c12run) proofMutations(t *testing.T, n int, ks []int, exhaustive bool) 
 					r.Outcome("pmut-foreign-key-not-proved")
 				}
 			}
-			if n == 4 && k == 3 && mut == "flip" && (pos == 2 || pos == 3) && field == "key" {
+			if n == 4 && k == 3 && mut == "flip" && (pos == 2 || pos == 3) && field == "key" && !psampled[pos] {
+				psampled[pos] = true
 				r.Sample(map[string]any{"case": id(), "role": role, "isvalid": fmt.Sprint(verr), "prove": fmt.Sprint(perr)})
 			}
 		}
